@@ -203,6 +203,14 @@ def oracle(rec, A):
                 return "resistive wall: Z[%d]/Z[%d] is not the square-root law" % (j, i)
         if any(abs(v.imag + v.real) > 1e-6 * abs(v.real) for v in z[1:n // 2 + 1]):
             return "resistive wall: phase is not -pi/4"
+        # absolute scale: Re Z(f) = (L / (2 pi b)) * sqrt(pi f mu_r mu0 / sigma) = sqrt(Z0 mu_r f/(sigma pi c)) * L/(2b)
+        f0w, fmaxw, L, sig, xi, b = [float(x) for x in rec["extra"]]
+        if 1 + xi > 0:
+            delta = fmaxw / f0w / (n - 1.0)
+            want = math.sqrt(376.730313461 * (1 + xi) * f0w / sig / math.pi / C_LIGHT) * L / 2 / b * math.sqrt(1 * delta)
+            if abs(z[1].real - want) > 1e-4 * want:
+                return ("resistive wall (susceptibility %g): Re Z at the first sample is %r, the skin-effect formula "
+                        "sqrt(Z0 mu_r f/(sigma pi c)) L/(2b) gives %r" % (xi, z[1].real, want))
     if model == "coll":
         if any(v != z[0] for v in z[:n // 2]) or z[0].real <= 0 or z[0].imag != 0:
             return "collimator is not a positive constant resistance"
